@@ -96,6 +96,12 @@ KeyAble(v) == CASE v.k = "bytes" -> v.mut = "F"
 Pick1(S) == CHOOSE x \in S : TRUE
 Pick2(S) == IF Cardinality(S) < 2 THEN Pick1(S) ELSE CHOOSE x \in S : x # Pick1(S)
 
+(* nested sequences offered to n-d array types: rectangular, ragged, scalars, mixed kinds *)
+NdVals == { MkList(<<MkList(<<MkInt(1), MkInt(2)>>), MkList(<<MkInt(0), MkInt(5)>>)>>), MkList(<<MkInt(1), MkInt(2)>>),
+            MkTuple(<<MkList(<<MkInt(1), MkInt(2)>>)>>), MkInt(5), MkList(<<>>), MkList(<<MkInt(1), MkInt(2), MkInt(5)>>),
+            MkList(<<MkList(<<MkInt(1)>>), MkList(<<MkInt(2), MkInt(5)>>)>>), MkList(<<MkInt(1), MkStr("s_a")>>), MkList(<<F15, MkInt(2)>>),
+            MkStr("s_a"), MkList(<<MkList(<<MkList(<<MkInt(1)>>)>>)>>) }
+
 (* values around the thresholds and lengths the stock conditions use *)
 CondVals ==
   { MkInt(n) : n \in {-2, -1, 0, 1, 2} }
@@ -147,6 +153,7 @@ Members(T) ==
     [] T.k = "lit"   -> Range(T.vs)
     [] T.k = "enum"  -> Range(T.vs)
     [] T.k = "ann"   -> Members(T.t)
+    [] T.k = "ndarray" -> NdVals
     [] T.k = "sub"   -> Members(T.base)
     [] T.k = "tagged" ->
          UNION { UNION { { TagWrap(T, T.tags[i], b, 1), TagWrap(T, T.tags[i], b, 2) } :
@@ -194,6 +201,7 @@ Gen(T) ==
     [] T.k = "union" -> UNION { Gen(T.alts[i]) : i \in DOMAIN T.alts }
     [] T.k = "lit"   -> {}
     [] T.k = "enum"  -> {}
+    [] T.k = "ndarray" -> {}
     [] T.k = "ann"   -> Gen(T.t) \cup CondVals
     [] T.k = "sub"   -> Gen(T.base)
     [] T.k = "tagged" ->
@@ -273,10 +281,14 @@ V3 == TCls("V3", << TagFld("s_v3"), Fld("s_y", TInt, DefVal(MkInt(6))), Fld("s_z
 V4 == TCls("V4", << Fld("s_y", TInt, NoDef), TagFld("s_v1") >>, <<"struct", "tuple">>, "struct")
 N1 == TCls("N1", << Fld("s_kind", TLit(<<MkInt(0)>>), DefVal(MkInt(0))), Fld("s_y", TInt, DefVal(MkInt(6))) >>, <<"struct">>, "struct")
 N2 == TCls("N2", << Fld("s_kind", TLit(<<MkInt(2)>>), DefVal(MkInt(2))), Fld("s_y", TInt, DefVal(MkInt(6))) >>, <<"struct">>, "struct")
+(* variants related by inheritance: VC is a subclass of VB (the concretiser derives it from VB's class) *)
+VB == TCls("VB", << TagFld("s_v1"), Fld("s_y", TInt, DefVal(MkInt(6))) >>, <<"struct">>, "struct")
+VC == [k |-> "cls", name |-> "VC", fs |-> << TagFld("s_v2"), Fld("s_y", TInt, DefVal(MkInt(6))), Fld("s_z", TInt, DefVal(MkInt(7))) >>,
+       inf |-> <<"struct">>, outf |-> "struct", extra |-> "F", hook |-> NoHook, parent |-> VB]
 TTagged(vs, lay) ==
   [k |-> "tagged", vars |-> vs, tag |-> "s_kind",
    tags |-> [i \in DOMAIN vs |-> FieldByName(vs[i], "s_kind").d.v], lay |-> lay, tk |-> "s_t", ck |-> "s_c"]
-TaggedLeaves == { TTagged(vs, lay) : vs \in { <<V1, V2>>, <<V1, V2, V3>>, <<V3, V1>>, <<V4, V2>>, <<N1, N2>> },
+TaggedLeaves == { TTagged(vs, lay) : vs \in { <<V1, V2>>, <<V1, V2, V3>>, <<V3, V1>>, <<V4, V2>>, <<N1, N2>>, <<VB, VC>>, <<VC, VB>> },
                                      lay \in {"int", "ext", "adj"} }
 
 (* C11: members that overlap *)
@@ -309,6 +321,12 @@ CNest == { [k |-> "or", cs |-> << [k |-> "and", cs |-> <<[k |-> "pos"], [k |-> "
            [k |-> "and", cs |-> <<[k |-> "lenge", n |-> 1], [k |-> "lenle", n |-> 2]>>] }
 CondInnerQ == { TInt, TFloat, TS("fraction"), TSeq("set", TInt), TSeq("list", TInt), TStr, EnumI }
 CondInnerT == CondInnerQ \cup { TS("complex"), TS("decimal"), TDict("dict", TStr, TInt), TOpt(TInt), TSeq("tuplevar", TFloat), TS("bytes") }
+TNd(e) == [k |-> "ndarray", e |-> e]
+NdConds == { [k |-> "shape", shape |-> <<2>>], [k |-> "shape", shape |-> <<2, 2>>], [k |-> "shape", shape |-> <<>>],
+             [k |-> "bcast", shape |-> <<2, 2>>], [k |-> "bcast", shape |-> <<3>>], [k |-> "nonempty"], [k |-> "pos"],
+             [k |-> "not", c |-> [k |-> "shape", shape |-> <<2>>]] }
+NdLeaves == { TAnn(TNd(e), <<c>>) : e \in {TInt, TFloat}, c \in NdConds } \cup { TNd(TInt), TNd(TFloat), TNd(TS("any")) }
+             \cup { TAnn(TSeq("list", TInt), <<[k |-> "shape", shape |-> <<2>>]>>) }
 CondLeaves(I, CS) == { TAnn(t, <<c>>) : t \in I, c \in CS }
                      \cup { TAnn(t, <<[k |-> "nonneg"], c>>) : t \in {TInt, TFloat}, c \in CBaseNum \cup CBaseUser }
 
@@ -414,8 +432,8 @@ Leaves ==
     [] Focus = "matrix"  -> MatrixTargets
     [] Focus = "unionq"  -> UnionLeaves(UPoolQ)
     [] Focus = "uniont"  -> UnionLeaves(UPoolT)
-    [] Focus = "condq"   -> CondLeaves(CondInnerQ, CBase \cup CComb(CSmall) \cup CNest)
-    [] Focus = "condt"   -> CondLeaves(CondInnerT, CBase \cup CComb(CBase) \cup CNest)
+    [] Focus = "condq"   -> CondLeaves(CondInnerQ, CBase \cup CComb(CSmall) \cup CNest) \cup NdLeaves
+    [] Focus = "condt"   -> CondLeaves(CondInnerT, CBase \cup CComb(CBase) \cup CNest) \cup NdLeaves
     [] Focus = "exc"     -> ExcLeaves \cup { TTagged(<<V1, V2>>, lay) : lay \in {"int", "ext", "adj"} }
     [] Focus = "tagged"  -> TaggedLeaves
     [] Focus = "cls"     -> ClsLeaves
